@@ -1,6 +1,6 @@
 (* C17 - heartbeats: sent when idle, enforced on the server, off when 0.
    This file only pins statements. *)
-From Amq Require Import Lib.Base Gen.Consts Model.Heartbeat Proofs.Heartbeat Model.Wire Model.Frames Model.OutBuf Model.Collector Model.Slots Model.Core Proofs.CoreMore Gen.Src Proofs.HeartbeatSrc.
+From Amq Require Import Lib.Base Gen.Consts Model.Heartbeat Proofs.Heartbeat Model.Wire Model.Frames Model.OutBuf Model.Collector Model.Slots Model.Core Proofs.CoreMore Lib.RsResult Gen.SrcFire Proofs.HeartbeatSrc.
 
 (* NOT EARLY: for every trace of reads and timer events, if the server is declared dead at time t then nothing was read during the last (2h - 5 ms) before t: the most recent read (or the start) is at least that old *)
 Theorem C17_not_early : forall (evs : list rx_ev) (h : hb) (t : N) (h' : hb), rx_run h evs = (Some t, h') -> mono (h_last h) evs -> exists last : N, last + h_interval h <= t + fudge_ms /\ h_last h' = last /\ (last = h_last h \/ In (RxRead last) evs).
@@ -59,7 +59,7 @@ Theorem C17_pass_ok : forall (fired : list (hbkind * bool)) (c : core), (forall 
 Proof. exact heartbeat_pass_ok. Qed.
 
 (* THE MODEL IS THE SOURCE: coq/Gen/Src.v is translated from src/heartbeats.rs (fn fire) on every run by tools/rs2v.py; the translated function - its verdict, Expired or still running, and the duration it re-arms the timer with - and the hand-written model hb_fire are equal for every interval, every time of the last activity and every time of firing, so the theorems of this file are theorems about the translated source; a change to the function (the 5 ms fudge, the comparison, the re-arm time) changes Gen/Src.v and this obligation is re-proved against it, or breaks *)
-Theorem C17_fire_source_is_model : forall last interval deadline now : N, last <= now -> let h := {| h_last := last; h_interval := interval; h_deadline := deadline |} in gen_Heartbeat_fire interval (now - last) = RsOk (String.String (Ascii.Ascii false false false true false false true false) (String.String (Ascii.Ascii true false true false false true true false) (String.String (Ascii.Ascii true false false false false true true false) (String.String (Ascii.Ascii false true false false true true true false) (String.String (Ascii.Ascii false false true false true true true false) (String.String (Ascii.Ascii false true false false false true true false) (String.String (Ascii.Ascii true false true false false true true false) (String.String (Ascii.Ascii true false false false false true true false) (String.String (Ascii.Ascii false false true false true true true false) (String.String (Ascii.Ascii true true true true true false true false) (String.String (Ascii.Ascii false true true false false true true false) (String.String (Ascii.Ascii true false false true false true true false) (String.String (Ascii.Ascii false true false false true true true false) (String.String (Ascii.Ascii true false true false false true true false) String.EmptyString)))))))))))))) [(String.String (Ascii.Ascii false true false false true true true false) (String.String (Ascii.Ascii true false true false false true true false) (String.String (Ascii.Ascii true true false false true true true false) (String.String (Ascii.Ascii true false true false true true true false) (String.String (Ascii.Ascii false false true true false true true false) (String.String (Ascii.Ascii false false true false true true true false) String.EmptyString))))), if fst (hb_fire now h) then 1 else 0); (String.String (Ascii.Ascii false false true false true true true false) (String.String (Ascii.Ascii true false false true false true true false) (String.String (Ascii.Ascii true false true true false true true false) (String.String (Ascii.Ascii true false true false false true true false) (String.String (Ascii.Ascii false true false false true true true false) (String.String (Ascii.Ascii false true true true false true false false) (String.String (Ascii.Ascii true true false false true true true false) (String.String (Ascii.Ascii true false true false false true true false) (String.String (Ascii.Ascii false false true false true true true false) (String.String (Ascii.Ascii true true true true true false true false) (String.String (Ascii.Ascii false false true false true true true false) (String.String (Ascii.Ascii true false false true false true true false) (String.String (Ascii.Ascii true false true true false true true false) (String.String (Ascii.Ascii true false true false false true true false) (String.String (Ascii.Ascii true true true true false true true false) (String.String (Ascii.Ascii true false true false true true true false) (String.String (Ascii.Ascii false false true false true true true false) (String.String (Ascii.Ascii true true false false false true false false) (String.String (Ascii.Ascii false false false false true true false false) String.EmptyString)))))))))))))))))), h_deadline (snd (hb_fire now h)) - now)].
+Theorem C17_fire_source_is_model : forall last interval deadline now : N, last <= now -> let h := {| h_last := last; h_interval := interval; h_deadline := deadline |} in gen_Heartbeat_fire interval (now - last) = RsOk "Heartbeat_fire" [("result", if fst (hb_fire now h) then 1 else 0); ("timer.set_timeout#0", h_deadline (snd (hb_fire now h)) - now)].
 Proof. exact fire_source_is_model. Qed.
 
 (* non-vacuity: h = 1: a read at 900 ms, silence afterwards, timer events at 2000 and 2900 *)
@@ -84,7 +84,7 @@ Check C17_zero : forall now : N, start_heartbeats now 0 = None.
 Check C17_intervals : forall (now secs : N) (rx tx : hb), start_heartbeats now secs = Some (rx, tx) -> h_interval rx = 2000 * secs /\ h_interval tx = 1000 * secs /\ c_max_missed_server_heartbeats = 2.
 Check C17_missed_not_masked : forall (pre rest : list (hbkind * bool)) (c : core), (forall (k : hbkind) (b : bool), In (k, b) pre -> (k, b) <> (HbRx, true)) -> fst (heartbeat_timers (pre ++ (HbRx, true) :: rest) c) = OErr EMissedHeartbeats.
 Check C17_pass_ok : forall (fired : list (hbkind * bool)) (c : core), (forall (k : hbkind) (b : bool), In (k, b) fired -> (k, b) <> (HbRx, true)) -> fst (heartbeat_timers fired c) = OOk.
-Check C17_fire_source_is_model : forall last interval deadline now : N, last <= now -> let h := {| h_last := last; h_interval := interval; h_deadline := deadline |} in gen_Heartbeat_fire interval (now - last) = RsOk (String.String (Ascii.Ascii false false false true false false true false) (String.String (Ascii.Ascii true false true false false true true false) (String.String (Ascii.Ascii true false false false false true true false) (String.String (Ascii.Ascii false true false false true true true false) (String.String (Ascii.Ascii false false true false true true true false) (String.String (Ascii.Ascii false true false false false true true false) (String.String (Ascii.Ascii true false true false false true true false) (String.String (Ascii.Ascii true false false false false true true false) (String.String (Ascii.Ascii false false true false true true true false) (String.String (Ascii.Ascii true true true true true false true false) (String.String (Ascii.Ascii false true true false false true true false) (String.String (Ascii.Ascii true false false true false true true false) (String.String (Ascii.Ascii false true false false true true true false) (String.String (Ascii.Ascii true false true false false true true false) String.EmptyString)))))))))))))) [(String.String (Ascii.Ascii false true false false true true true false) (String.String (Ascii.Ascii true false true false false true true false) (String.String (Ascii.Ascii true true false false true true true false) (String.String (Ascii.Ascii true false true false true true true false) (String.String (Ascii.Ascii false false true true false true true false) (String.String (Ascii.Ascii false false true false true true true false) String.EmptyString))))), if fst (hb_fire now h) then 1 else 0); (String.String (Ascii.Ascii false false true false true true true false) (String.String (Ascii.Ascii true false false true false true true false) (String.String (Ascii.Ascii true false true true false true true false) (String.String (Ascii.Ascii true false true false false true true false) (String.String (Ascii.Ascii false true false false true true true false) (String.String (Ascii.Ascii false true true true false true false false) (String.String (Ascii.Ascii true true false false true true true false) (String.String (Ascii.Ascii true false true false false true true false) (String.String (Ascii.Ascii false false true false true true true false) (String.String (Ascii.Ascii true true true true true false true false) (String.String (Ascii.Ascii false false true false true true true false) (String.String (Ascii.Ascii true false false true false true true false) (String.String (Ascii.Ascii true false true true false true true false) (String.String (Ascii.Ascii true false true false false true true false) (String.String (Ascii.Ascii true true true true false true true false) (String.String (Ascii.Ascii true false true false true true true false) (String.String (Ascii.Ascii false false true false true true true false) (String.String (Ascii.Ascii true true false false false true false false) (String.String (Ascii.Ascii false false false false true true false false) String.EmptyString)))))))))))))))))), h_deadline (snd (hb_fire now h)) - now)].
+Check C17_fire_source_is_model : forall last interval deadline now : N, last <= now -> let h := {| h_last := last; h_interval := interval; h_deadline := deadline |} in gen_Heartbeat_fire interval (now - last) = RsOk "Heartbeat_fire" [("result", if fst (hb_fire now h) then 1 else 0); ("timer.set_timeout#0", h_deadline (snd (hb_fire now h)) - now)].
 
 Print Assumptions C17_not_early.
 Print Assumptions C17_prompt.
